@@ -1648,6 +1648,38 @@ def _check_use(ctx, fi, call, field, kind):
 
 
 # ====================================================================== driver
+def _raw_flag_sites(ctx):
+    """`raw=True` switches the content decoder (and the chunk decoding) off.  At every call of a function that has a `raw`
+    parameter the value bound to it is a boolean constant or the caller's own `raw` parameter - never some other value that happens
+    to land in that position (a time-out passed positionally is truthy)."""
+    repo, ck, res = ctx.repo, ctx.check, ctx.res
+    n = 0
+    for f in repo.funcs.values():
+        if not f.module.name.startswith(('wpull.protocol.http', 'wpull.processor', 'wpull.proxy')) or f.module.name.endswith('_test'):
+            continue
+        for c in U.calls(f.node):
+            if U.attr_name(c) not in ('download', 'read_body'):
+                continue
+            for g in res.callee_funcs(f, c, allow_name=True, count=False):
+                ps = [p for p in g.params if p not in ('self', 'cls')]
+                if 'raw' not in ps:
+                    continue
+                i = ps.index('raw')
+                a = c.args[i] if i < len(c.args) and not any(isinstance(x, ast.Starred) for x in c.args[:i + 1]) else None
+                for k in c.keywords:
+                    if k.arg == 'raw':
+                        a = k.value
+                if a is None:
+                    continue        # default
+                n += 1
+                ok = (isinstance(a, ast.Constant) and isinstance(a.value, bool)) or (isinstance(a, ast.Name) and a.id == 'raw')
+                ck.expect(ok, 'C19-D2', f.qual, '%s(...): raw <- %s' % (U.attr_name(c), norm_text(a)),
+                          'the value bound to `raw` of %s is `%s`, not a boolean constant or the caller\'s raw flag: when it is truthy the '
+                          'content coding is not removed (and chunk framing is left in the body)' % (g.qual.split(':')[-1], norm_text(a)), f.loc(c))
+                break
+    ck.info['raw_flag_sites'] = n
+
+
 def run(ctx):
     repo, ck = ctx.repo, ctx.check
     dmod = repo.module(DEC)
@@ -1754,6 +1786,7 @@ def run(ctx):
     for r in readers:
         _check_reader(ctx, r, names, dec_fn.name, flush_fn.name)
     _check_chunk_body(ctx)
+    _raw_flag_sites(ctx)
     if getattr(ctx, 'prop', None) == 'C19':
         # the decoder sees the content bytes only if the chunk framing is removed exactly (rules shared with C08)
         from . import c08
